@@ -29,6 +29,8 @@ class SimTransport(transports.Transport):
         self.closed_by = None      # 'client' | 'gc' | 'peer' | 'fault'
         self.opened_at = loop.time()
         self.written = bytearray()
+        self._undelivered = []     # log indices of writes made during a stall (the peer has not seen them yet)
+        self._held = []            # (log index, offset in self.written, caller's mutable buffer) queued during a stall
         self.buffered = False      # bytes accepted while the peer's window was closed and not flushed since
         self.linger = False        # close() is waiting for those bytes to be flushed (as _SelectorSocketTransport does)
 
@@ -74,8 +76,15 @@ class SimTransport(transports.Transport):
         self.written += data
         if self.paused:
             self.buffered = True
+            if isinstance(data, (bytearray, memoryview)):
+                # CPython 3.12's selector transport queues a memoryview of the caller's buffer: what reaches the peer
+                # is the buffer's content when the stall ends, not when write() was called
+                self._held.append((len(self.net.log), len(self.written) - len(data), data))
         self.net.obs("write", self.cid, bytes(data))
-        if self.net.on_write:
+        if self.paused:
+            # the peer gets these bytes when the stall ends (and then whatever the caller's buffer holds by then)
+            self._undelivered.append(len(self.net.log) - 1)
+        elif self.net.on_write:
             self.net.on_write(self, bytes(data))
 
     def _fatal(self, exc, by):
@@ -166,7 +175,18 @@ class SimTransport(transports.Transport):
         if self.paused:
             self.paused = False
             self.buffered = False
+            for (li, off, ref) in self._held:
+                now = bytes(ref)
+                e = self.net.log[li]
+                if now != e[3]:
+                    self.net.log[li] = e[:3] + (now,) + e[4:]
+                    self.written[off:off + len(now)] = now
+            self._held = []
             self.net.obs("resume", self.cid)
+            if self.net.on_write:
+                for li in self._undelivered:
+                    self.net.on_write(self, self.net.log[li][3])
+            self._undelivered = []
             if self.linger and not self._conn_lost:
                 self.linger = False
                 self._conn_lost += 1
